@@ -19,7 +19,8 @@ vars == <<case, hist, pre, cur, err>>
 MCFoldTable == [Root |-> "root", ROOT |-> "root", root |-> "root", Inner |-> "inner", inner |-> "inner", U |-> "u", u |-> "u",
                 Panel |-> "panel", Zed |-> "zed", Options |-> "options", Copy |-> "copy", Renamed |-> "renamed",
                 QPanel |-> "qpanel", TAGS |-> "tags", tags |-> "tags", Flag |-> "flag", flag |-> "flag", NAME |-> "name",
-                name |-> "name", OPTS |-> "opts", opts |-> "opts", innerY |-> "innery", Missing |-> "missing", X |-> "x", x |-> "x"]
+                name |-> "name", OPTS |-> "opts", opts |-> "opts", INNER |-> "inner", Tags |-> "tags", LABELS |-> "labels", labels |-> "labels",
+                FLAG |-> "flag", copy |-> "copy", Copy2 |-> "copy2", Renamed2 |-> "renamed2", Uu |-> "uu", innerY |-> "innery", Missing |-> "missing", X |-> "x", x |-> "x"]
 MCSingular == [tags |-> "tag", labels |-> "label", items |-> "item"]
 MCLCamel   == [Inner |-> "inner", string |-> "string", bool |-> "bool"]
 
@@ -251,7 +252,24 @@ ChainProd == ON("Root", <<"l2", "l3", "n", "a", "b", "c">>)
 Merge(src, under) == BR("merge_into", BN("Root")) @@ [source |-> src, under |-> under, exclude |-> <<>>, rename |-> <<>>]
 RChain == <<OSfo(R("deep"), <<>>), OSfo(ChainProd, <<>>), OSfa(ChainProd, <<>>), OSfo(ON("L1", <<"l2">>), <<>>),
             Merge("L1", <<"deep">>), Merge("L2", <<"deep", "l2">>), Merge("L3", <<"deep", "l2", "l3">>)>>
-R2 == IF Chains THEN RChain ELSE R2Full
+\* thorough tier: selectors spelled in another letter case, by_builder / by_name(builder) / by_variant / from_disjunction
+\* combinations, rules on copies; used for simulated histories of four rules
+R2Extra == <<
+  OOmit(ON("root", <<"TAGS">>)), ORen(ON("ROOT", <<"INNER">>)), OA2A(OB("ROOT", <<"Tags">>)), OM2I(OB("root", <<"LABELS">>)),
+  OUnf(ON("root", <<"FLAG">>)), OSfo(OB("Root", <<"inner">>), <<>>), ODup(OB("Copy", <<"tags">>)), ORenA1(OB("copy", <<"NAME">>)),
+  BR("rename", BN("ROOT")) @@ [as |-> "Renamed2"], BR("omit", BN("Copy")),
+  BR("duplicate", BN("root")) @@ [as |-> "Copy2", exclude |-> <<"FLAG">>],
+  BR("properties", BV("panelcfg")) @@ [set |-> <<Field("prop", TString, TRUE)>>], BR("omit", BD),
+  BR("rename", BO("p", "u")) @@ [as |-> "Uu"]
+>>
+CONSTANT Ext
+\* argument wiring: options with two arguments and name lists that swap or shift the old names
+ORenAs(s, as) == OR("rename_arguments", s) @@ [as |-> as]
+RWiring == <<OM2I(R("labels")), OSfa(R("inner"), <<>>), OA2A(R("tags")),
+             ORenAs(R("labels"), <<"label", "key">>), ORenAs(R("labels"), <<"label", "value">>), ORenAs(R("labels"), <<"k", "key">>),
+             ORenAs(R("inner"), <<"y", "x">>), ORenAs(R("inner"), <<"y", "z">>), ORenAs(R("tags"), <<"tags">>)>>
+CONSTANT Wiring
+R2 == IF Chains THEN RChain ELSE IF Wiring THEN RWiring ELSE IF Ext THEN R2Full \o R2Extra ELSE R2Full
 R2All == {R2[i] @@ [lang |-> "all"] : i \in DOMAIN R2}
 
 LangAfter(last, r) == IF last.lang = "go" THEN "go" ELSE IF last.kind = "o" /\ r.kind = "b" THEN "go" ELSE "all"
